@@ -31,8 +31,78 @@ use vcore::ydoc::{Node, RenderOpts};
 /// sequence items, and behind the undeclared fields of a derived struct that declares only `k2`
 /// (`Rec` also ignores what it does not declare). The policy holds for every target, so a repeated key
 /// inside an ignored value must still fail under `Error` and be read through under First/LastWins.
-const TARGETS: [&str; 9] = ["Val", "MapValVal", "MapStrVal", "Rec", "json", "Ignored", "MapStrIgnored", "VecIgnored", "OnlyK2"];
-const IGNORING: [&str; 5] = ["Rec", "Ignored", "MapStrIgnored", "VecIgnored", "OnlyK2"];
+const TARGETS: [&str; 10] = ["Val", "MapValVal", "MapStrVal", "Rec", "json", "Ignored", "MapStrIgnored", "VecIgnored", "OnlyK2", "Outer"];
+const IGNORING: [&str; 6] = ["Rec", "Ignored", "MapStrIgnored", "VecIgnored", "OnlyK2", "Outer"];
+
+/// Typed positions below the root (wraps 3..=9 of the generator put the test mapping there).
+#[derive(Debug, serde::Deserialize)]
+#[allow(dead_code)]
+struct W3 {
+    #[serde(default)]
+    k1: Option<Val>,
+    #[serde(default)]
+    k2: Option<Val>,
+    #[serde(default)]
+    k3: Option<Val>,
+}
+#[derive(Debug, serde::Deserialize)]
+#[allow(dead_code)]
+enum Ext {
+    St {
+        #[serde(default)]
+        k1: Option<Val>,
+        #[serde(default)]
+        k2: Option<Val>,
+        #[serde(default)]
+        k3: Option<Val>,
+    },
+}
+#[derive(Debug, serde::Deserialize)]
+#[serde(tag = "t")]
+#[allow(dead_code)]
+enum Int {
+    A {
+        #[serde(default)]
+        k1: Option<Val>,
+        #[serde(default)]
+        k2: Option<Val>,
+        #[serde(default)]
+        k3: Option<Val>,
+    },
+}
+#[derive(Debug, serde::Deserialize)]
+#[allow(dead_code)]
+struct Flat {
+    #[serde(default)]
+    k1: Option<Val>,
+    #[serde(flatten)]
+    rest: std::collections::BTreeMap<String, Val>,
+}
+#[derive(Debug, serde::Deserialize)]
+#[serde(untagged)]
+#[allow(dead_code)]
+enum Unt {
+    W(W3),
+    Other(Val),
+}
+#[derive(Debug, serde::Deserialize)]
+#[allow(dead_code)]
+struct Outer {
+    #[serde(default)]
+    items: Vec<W3>,
+    #[serde(default)]
+    inner: Option<W3>,
+    #[serde(default)]
+    byname: std::collections::BTreeMap<String, W3>,
+    #[serde(default)]
+    e: Option<Ext>,
+    #[serde(default)]
+    it: Option<Int>,
+    #[serde(default)]
+    flat: Option<Flat>,
+    #[serde(default)]
+    un: Option<Unt>,
+}
 
 #[derive(Debug, serde::Deserialize)]
 #[allow(dead_code)]
@@ -45,8 +115,21 @@ fn local<T: serde::de::DeserializeOwned + std::fmt::Debug>(doc: &str, policy: us
     vcore::obs::catch(|| serde_saphyr::from_str_with_options::<T>(doc, opts(policy)).map(|v| format!("{v:?}")))
 }
 
+const OPTVEC_NAMES: [&str; 4] = [
+    "limits-off",
+    "limits-off+no_schema+strict_booleans+legacy_octal+ignore_binary_tag",
+    "limits-off+no-snippet+angle_conversions",
+    "Options::default() for documents below 20 kB (else limits-off)",
+];
+
+thread_local! {
+    /// option vector of the document being checked (every call of one relation uses the same one)
+    static OPTVEC: std::cell::Cell<usize> = const { std::cell::Cell::new(0) };
+}
+
 fn opts(policy: usize) -> serde_saphyr::Options {
-    let mut o = vcore::errs::unlimited_options();
+    let vec = OPTVEC.with(|c| c.get());
+    let mut o = if vec == 3 { serde_saphyr::Options::default() } else { vcore::errs::unlimited_options() };
     #[allow(deprecated)]
     {
         o.duplicate_keys = match policy {
@@ -54,6 +137,19 @@ fn opts(policy: usize) -> serde_saphyr::Options {
             2 => serde_saphyr::DuplicateKeyPolicy::LastWins,
             _ => serde_saphyr::DuplicateKeyPolicy::Error,
         };
+        match vec {
+            1 => {
+                o.no_schema = true;
+                o.strict_booleans = true;
+                o.legacy_octal_numbers = true;
+                o.ignore_binary_tag_for_string = true;
+            }
+            2 => {
+                o.with_snippet = false;
+                o.angle_conversions = true;
+            }
+            _ => {}
+        }
     }
     o
 }
@@ -63,6 +159,7 @@ fn run_target(name: &str, doc: &str, policy: usize) -> Result<Outcome, String> {
         "MapStrIgnored" => return local::<std::collections::BTreeMap<String, serde::de::IgnoredAny>>(doc, policy),
         "VecIgnored" => return local::<Vec<serde::de::IgnoredAny>>(doc, policy),
         "OnlyK2" => return local::<OnlyK2>(doc, policy),
+        "Outer" => return local::<Outer>(doc, policy),
         _ => {}
     }
     let t = targets::by_name(name).unwrap();
@@ -330,6 +427,7 @@ struct FirstRepeat {
     def: Pos,
     first_occurrence: Pos,
     in_replay: bool,
+    in_nullmap_value: bool,
     depth: usize,
     key_kind: &'static str,
     discarded_value: &'static str,
@@ -347,6 +445,8 @@ struct Analysis {
     root_is_seq: bool,
     root_keys_plain_scalars: bool,
     custom_tag_lookalike: bool,
+    /// some entry is keyed by a one-entry mapping with a null-like key
+    has_nullmap_key: bool,
     /// two container keys of one mapping are equal once the tags of their scalar leaves are ignored
     container_leaf_tag_lookalike: bool,
     /// some repeated key is written plain at one occurrence and quoted at another on a leaf whose
@@ -358,11 +458,34 @@ struct Analysis {
 }
 
 struct Ctx {
+    /// inside the value of an entry whose key is a one-entry mapping with a null-like key (`{~: x}: value`)
+    in_nullmap_value: bool,
     in_replay: bool,
     in_source: bool,
     in_key: bool,
     depth: usize,
 }
+
+/// A key that is a one-entry mapping whose own key is null-like: `{~: x}`, `{null: x}`, `{: x}`.
+fn is_nullmap_key(k: &RNode) -> bool {
+    match k {
+        RNode::Map { entries, .. } if entries.len() == 1 => match &entries[0].0 {
+            RNode::Scalar { value, tag, .. } => {
+                tag.as_deref() == Some("!!null") || value.is_empty() || value == "~" || value.eq_ignore_ascii_case("null")
+            }
+            _ => false,
+        },
+        _ => false,
+    }
+}
+
+/// The repeated key sits in the value of an entry whose key is `{null: x}`; the deserializer replaces that
+/// entry's value by `x` and never reads the written value, so nothing inside it is checked.
+const NULLMAP_SIG: &str = "C04:error-policy:repeat-inside-value-of-entry-keyed-by-one-entry-null-mapping";
+
+/// Same place, value now read: the repeat is found, but reported at the start of that value (the replay
+/// buffer's reference location), in nested cases wrapped in `AliasError`, instead of at the repeated key.
+const NULLMAP_LOC_SIG: &str = "C04:error-location:repeat-inside-value-of-entry-keyed-by-one-entry-null-mapping:reported-at-value-start";
 
 fn is_custom_tag(t: &Option<String>) -> bool {
     matches!(t, Some(s) if s.starts_with('!') && !s.starts_with("!!") && s.len() > 1)
@@ -386,12 +509,15 @@ fn analyse(raw: Option<&RNode>, usex: &RNode, defx: &RNode, c: &Ctx, an: &mut An
                 let (dk, dv) = (&dentries[i].0, &dentries[i].1);
                 if is_merge_key(k) {
                     an.has_merge = true;
-                    let c2 = Ctx { in_replay: replay_below, in_source: true, in_key: c.in_key, depth: c.depth + 1 };
+                    let c2 = Ctx { in_nullmap_value: c.in_nullmap_value, in_replay: replay_below, in_source: true, in_key: c.in_key, depth: c.depth + 1 };
                     analyse(rv, v, dv, &c2, an);
                     continue;
                 }
                 if !matches!(k, RNode::Scalar { .. }) {
                     an.complex_key = true;
+                }
+                if is_nullmap_key(k) {
+                    an.has_nullmap_key = true;
                 }
                 let earlier = entries[..i].iter().find(|(k2, _)| !is_merge_key(k2) && key_eq(k2, k));
                 if let Some((k0, _)) = earlier {
@@ -417,6 +543,7 @@ fn analyse(raw: Option<&RNode>, usex: &RNode, defx: &RNode, c: &Ctx, an: &mut An
                             def: dk.pos(),
                             first_occurrence: k0.pos(),
                             in_replay: replay_below,
+                            in_nullmap_value: c.in_nullmap_value,
                             depth: c.depth,
                             key_kind: kind_name(k),
                             discarded_value: value_class(rv, v),
@@ -439,9 +566,9 @@ fn analyse(raw: Option<&RNode>, usex: &RNode, defx: &RNode, c: &Ctx, an: &mut An
                         an.custom_tag_lookalike = true;
                     }
                 }
-                let ck = Ctx { in_replay: replay_below, in_source: c.in_source, in_key: true, depth: c.depth + 1 };
+                let ck = Ctx { in_nullmap_value: c.in_nullmap_value, in_replay: replay_below, in_source: c.in_source, in_key: true, depth: c.depth + 1 };
                 analyse(rk, k, dk, &ck, an);
-                let cv = Ctx { in_replay: replay_below, in_source: c.in_source, in_key: c.in_key, depth: c.depth + 1 };
+                let cv = Ctx { in_nullmap_value: c.in_nullmap_value || is_nullmap_key(k), in_replay: replay_below, in_source: c.in_source, in_key: c.in_key, depth: c.depth + 1 };
                 analyse(rv, v, dv, &cv, an);
             }
         }
@@ -454,7 +581,7 @@ fn analyse(raw: Option<&RNode>, usex: &RNode, defx: &RNode, c: &Ctx, an: &mut An
                 _ => None,
             };
             for (i, it) in items.iter().enumerate() {
-                let c2 = Ctx { in_replay: replay_below, in_source: c.in_source, in_key: c.in_key, depth: c.depth + 1 };
+                let c2 = Ctx { in_nullmap_value: c.in_nullmap_value, in_replay: replay_below, in_source: c.in_source, in_key: c.in_key, depth: c.depth + 1 };
                 analyse(ritems.map(|r| &r[i]), it, &ditems[i], &c2, an);
             }
         }
@@ -469,7 +596,7 @@ fn analyse_doc(raw: &RNode, usex: &RNode, defx: &RNode) -> Analysis {
         an.root_is_map = true;
         an.root_keys_plain_scalars = entries.iter().all(|(k, _)| matches!(k, RNode::Scalar { tag: None, .. }));
     }
-    analyse(Some(raw), usex, defx, &Ctx { in_replay: false, in_source: false, in_key: false, depth: 0 }, &mut an);
+    analyse(Some(raw), usex, defx, &Ctx { in_nullmap_value: false, in_replay: false, in_source: false, in_key: false, depth: 0 }, &mut an);
     an
 }
 
@@ -672,7 +799,10 @@ fn report(run: &Run, sig: &str, case: serde_json::Value, detail: impl Into<Strin
 
 // ------------------------------------------------------------------ the check of one document
 
-fn check_doc(run: &Run, doc: &str, flow: bool, class: &str) {
+fn check_doc(run: &Run, doc: &str, flow: bool, class: &str, optvec: usize) {
+    // the default-limits vector only for documents that are far inside every default limit
+    let optvec = if optvec == 3 && doc.len() >= 20_000 { 0 } else { optvec % 4 };
+    OPTVEC.with(|c| c.set(optvec));
     let Some(raw) = reftree::parse_one(doc) else {
         run.inconclusive("generator-invalid: document rejected by the raw parser");
         return;
@@ -689,8 +819,8 @@ fn check_doc(run: &Run, doc: &str, flow: bool, class: &str) {
         return;
     }
     // the replay file must stay small: big documents are stored as text anyway (needed to re-run)
-    let case = |extra: serde_json::Value| json!({"doc": doc, "flow": flow, "class": class, "what": extra});
-    let h = |tag: &str| fnv_parts(&[doc.as_bytes(), tag.as_bytes()]);
+    let case = |extra: serde_json::Value| json!({"doc": doc, "flow": flow, "class": class, "optvec": optvec, "what": extra});
+    let h = |tag: &str| fnv_parts(&[doc.as_bytes(), tag.as_bytes(), &[optvec as u8]]);
 
     if an.repeats == 0 {
         // identical under the three policies
@@ -754,7 +884,7 @@ fn check_doc(run: &Run, doc: &str, flow: bool, class: &str) {
                 "Val" => true,
                 "MapValVal" => an.root_is_map,
                 "MapStrVal" => an.root_is_map && an.root_keys_plain_scalars,
-                "Rec" | "OnlyK2" | "MapStrIgnored" => an.root_is_map && an.root_keys_plain_scalars,
+                "Rec" | "OnlyK2" | "MapStrIgnored" | "Outer" => an.root_is_map && an.root_keys_plain_scalars,
                 "json" => an.root_is_map && !an.complex_key,
                 "Ignored" => true,
                 "VecIgnored" => an.root_is_seq,
@@ -768,19 +898,23 @@ fn check_doc(run: &Run, doc: &str, flow: bool, class: &str) {
             match run_target(tn, doc, 0) {
                 Err(pn) => report(run, &format!("C04:panic:{}", vcore::obs::panic_site(&pn)), cj(), pn),
                 Ok(Ok(v)) => report(run, 
-                    &format!("C04:error-policy:repeated-key-accepted:{}", first.key_kind),
+                    &if first.in_nullmap_value { NULLMAP_SIG.to_string() } else { format!("C04:error-policy:repeated-key-accepted:{}", first.key_kind) },
                     cj(),
                     format!("[{tn}] repeated {} key at line {} col {} gave Ok({})", first.key_kind, expect.0, expect.1, clip(&v)),
                 ),
                 Ok(Err(e)) => {
                     let kind = vcore::errs::kind(&e);
                     acc::observe(run, "error_policy_kinds", &kind);
+                    if first.in_nullmap_value && kind == "AliasError" && e.to_string().contains("duplicate mapping key") {
+                        report(run, NULLMAP_LOC_SIG, cj(), format!("[{tn}] expected DuplicateMappingKey at {expect:?}, got {kind}: {}", clip(&e.to_string())));
+                        continue;
+                    }
                     if kind != "DuplicateMappingKey" {
                         // an error of the target itself that precedes the repeated key (e.g. a tagged scalar the
                         // target cannot take in key position) is not the policy's business: the document must be
                         // readable by this target when nothing is rejected as a duplicate
                         run.eval();
-                        if !matches!(run_target(tn, doc, 2), Ok(Ok(_))) {
+                        if !matches!(run_target(tn, doc, 2), Ok(Ok(_))) && !matches!(run_target(tn, doc, 1), Ok(Ok(_))) {
                             acc::count("error_policy_skipped_target_rejects_document", 1);
                             continue;
                         }
@@ -803,7 +937,9 @@ fn check_doc(run: &Run, doc: &str, flow: bool, class: &str) {
                     } else {
                         let def = (first.def.line as u64, first.def.col as u64 + 1);
                         let fo = (first.first_occurrence.line as u64, first.first_occurrence.col as u64 + 1);
-                        let sig = if first.via_alias && got == Some(def) {
+                        let sig = if first.in_nullmap_value {
+                            NULLMAP_LOC_SIG.to_string()
+                        } else if first.via_alias && got == Some(def) {
                             "C04:error-location:alias-key-reported-at-anchor-definition".to_string()
                         } else if got == Some(fo) {
                             format!("C04:error-location:reported-at-first-occurrence:{}", first.key_kind)
@@ -845,7 +981,8 @@ fn check_doc(run: &Run, doc: &str, flow: bool, class: &str) {
                 Ok(Err(e)) => {
                     // only a verdict when the untyped target reads the document under this policy
                     run.eval();
-                    if matches!(run_target("Val", doc, p), Ok(Ok(_))) {
+                    let reference = if tn == "MapStrIgnored" { "MapStrVal" } else { "Val" };
+                    if matches!(run_target(reference, doc, p), Ok(Ok(_))) {
                         report(
                             run,
                             &format!("C04:{}:ignoring-target-failed:{}", if p == 1 { "first-wins" } else { "last-wins" }, vcore::errs::kind(&e)),
@@ -865,6 +1002,9 @@ fn check_doc(run: &Run, doc: &str, flow: bool, class: &str) {
             run.inconclusive("model error: first-wins reference still has repeats");
         } else {
             for tn in TARGETS {
+                if ["Ignored", "MapStrIgnored", "VecIgnored"].contains(&tn) {
+                    continue; // read-through is checked above; their Ok value carries nothing to compare
+                }
                 run.evals(2);
                 let cj = || case(json!({"policy": "FirstWins", "target": tn, "reference": clip(&fdoc)}));
                 let (a, b) = match (run_target(tn, doc, 1), run_target(tn, &fdoc, 0)) {
@@ -968,6 +1108,7 @@ fn check_doc(run: &Run, doc: &str, flow: bool, class: &str) {
         match (run_val(doc, 2), run_val(&sdoc, 2)) {
             (Err(pn), _) | (_, Err(pn)) => report(run, &format!("C04:panic:{}", vcore::obs::panic_site(&pn)), cj(), pn),
             (Ok(Ok(a)), Ok(Ok(b))) => match unsplit(&b, &mut Vec::new(), &split) {
+                None if an.has_nullmap_key => acc::count("last_wins_delivery_skipped_value_of_nullmap_keyed_entry_not_delivered", 1),
                 None => run.inconclusive("model error: one-pair-mappings reference did not deserialize into one-pair maps"),
                 Some(b2) => {
                     if a != b2 {
@@ -1013,6 +1154,16 @@ enum KKind {
     Scalar,
     Seq,
     Map,
+    /// `~` (a null key)
+    Null,
+    /// `""` (an empty string key)
+    Empty,
+    /// `[]`
+    ESeq,
+    /// `{}`
+    EMap,
+    /// `{~: m}`: a one-entry mapping with a null key (the deserializer has a dedicated buffered path for it)
+    NullMap,
 }
 
 /// How a later occurrence of a key is written.
@@ -1024,6 +1175,8 @@ enum Variant {
     /// looks like the first occurrence but carries `!!str` on the scalar / the first element /
     /// the entry key: a *different* key (random part only)
     TagElem,
+    /// alias to an equal node that is anchored in an entry *before* the mapping, not at the first occurrence
+    AliasPre,
 }
 
 #[derive(Clone, Debug, PartialEq)]
@@ -1072,12 +1225,15 @@ impl B {
         if later == Some(Variant::Alias) {
             return Node::alias(&format!("a{id}"));
         }
+        if later == Some(Variant::AliasPre) {
+            return Node::alias(&format!("p{id}"));
+        }
         if later == Some(Variant::TagElem) {
             let t = Node::plain(&name).with_tag("!!str");
             return match kind {
-                KKind::Scalar => t,
                 KKind::Seq => Node::fseq(vec![t, Node::plain("s")]),
                 KKind::Map => Node::fmap(vec![(t, Node::plain("m"))]),
+                _ => t,
             };
         }
         let restyle = later == Some(Variant::Restyle);
@@ -1095,6 +1251,18 @@ impl B {
             }
             KKind::Map => {
                 let (a, b) = if restyle { (Node::dq(&name), Node::sq("m")) } else { (Node::plain(&name), Node::plain("m")) };
+                Node::fmap(vec![(a, b)])
+            }
+            KKind::Null => {
+                if restyle { Node::dq("~") } else { Node::plain("~") }
+            }
+            KKind::Empty => {
+                if restyle { Node::sq("") } else { Node::dq("") }
+            }
+            KKind::ESeq => Node::fseq(vec![]),
+            KKind::EMap => Node::fmap(vec![]),
+            KKind::NullMap => {
+                let (a, b) = if restyle { (Node::dq("~"), Node::sq("m")) } else { (Node::plain("~"), Node::plain("m")) };
                 Node::fmap(vec![(a, b)])
             }
         };
@@ -1170,6 +1338,20 @@ fn build(spec: &Spec) -> Node {
         let big = Node::seq((0..spec.big).map(|i| Node::plain(&format!("g{i}"))).collect()).with_anchor("big");
         prelude.push((Node::plain("prebig"), big));
     }
+    {
+        // anchors that `AliasPre` occurrences refer to: an equal key node, anchored before the mapping
+        let mut pre_ids: BTreeSet<usize> = BTreeSet::new();
+        let mut seen: BTreeSet<usize> = BTreeSet::new();
+        for i in 0..n {
+            if !seen.insert(spec.ids[i]) && spec.variants[i] == Variant::AliasPre {
+                pre_ids.insert(spec.ids[i]);
+            }
+        }
+        for id in pre_ids {
+            let node = b.key(id, spec.kinds[id], None, Some(format!("p{id}")));
+            prelude.push((Node::plain(&format!("pk{id}")), node));
+        }
+    }
     let mut entries: Vec<(Node, Node)> = Vec::new();
     let mut seen: BTreeSet<usize> = BTreeSet::new();
     for i in 0..n {
@@ -1198,9 +1380,30 @@ fn build(spec: &Spec) -> Node {
             items.push(b.tok());
             Node::seq(items)
         }
-        _ => {
+        2 => {
             let mut e = prelude;
             e.push((Node::plain("o1"), Node::map(entries)));
+            e.push((Node::plain("o2"), b.tok()));
+            Node::map(e)
+        }
+        w => {
+            // typed positions of `Outer`
+            let m = Node::map(entries.clone());
+            let (field, value) = match w {
+                3 => ("items", Node::seq(vec![m.clone(), m])),
+                4 => ("inner", m),
+                5 => ("byname", Node::map(vec![(Node::plain("x"), m.clone()), (Node::plain("y"), m)])),
+                6 => ("e", Node::map(vec![(Node::plain("St"), m)])),
+                7 => {
+                    let mut e = vec![(Node::plain("t"), Node::plain("A"))];
+                    e.extend(entries);
+                    ("it", Node::map(e))
+                }
+                8 => ("flat", m),
+                _ => ("un", m),
+            };
+            let mut e = prelude;
+            e.push((Node::plain(field), value));
             e.push((Node::plain("o2"), b.tok()));
             Node::map(e)
         }
@@ -1243,7 +1446,7 @@ fn product(sizes: &[usize]) -> Vec<Vec<usize>> {
 
 /// All small specs for entry-id sequence `ids`. `vary_all`: every entry's value ranges over
 /// the six small shapes; otherwise only entries whose key occurs more than once do.
-fn small_specs(ids: &[usize], vary: u8, wraps: &[usize]) -> Vec<Spec> {
+fn small_specs(ids: &[usize], vary: u8, wraps: &[usize], kinds_all: &[KKind], vars_all: &[Variant]) -> Vec<Spec> {
     let n = ids.len();
     let n_ids = ids.iter().max().map(|m| m + 1).unwrap_or(0);
     let count = |id: usize| ids.iter().filter(|x| **x == id).count();
@@ -1260,10 +1463,9 @@ fn small_specs(ids: &[usize], vary: u8, wraps: &[usize]) -> Vec<Spec> {
         1 => (0..n).filter(|i| repeated.contains(&ids[*i])).collect(),
         _ => later.clone(),
     };
-    let kinds_all = [KKind::Scalar, KKind::Seq, KKind::Map];
-    let vars_all = [Variant::Same, Variant::Restyle, Variant::Alias];
     let mut out = Vec::new();
-    let kind_choices = if repeated.is_empty() { product(&vec![3; n_ids.min(2)]) } else { product(&vec![3; repeated.len()]) };
+    let nk = kinds_all.len();
+    let kind_choices = if repeated.is_empty() { product(&vec![nk; n_ids.min(2)]) } else { product(&vec![nk; repeated.len()]) };
     for kc in &kind_choices {
         let mut kinds = vec![KKind::Scalar; n_ids];
         if repeated.is_empty() {
@@ -1275,7 +1477,7 @@ fn small_specs(ids: &[usize], vary: u8, wraps: &[usize]) -> Vec<Spec> {
                 kinds[*id] = kinds_all[kc[j]];
             }
         }
-        for vc in product(&vec![3; later.len()]) {
+        for vc in product(&vec![vars_all.len(); later.len()]) {
             let mut variants = vec![Variant::Same; n];
             for (j, p) in later.iter().enumerate() {
                 variants[*p] = vars_all[vc[j]];
@@ -1294,7 +1496,7 @@ fn small_specs(ids: &[usize], vary: u8, wraps: &[usize]) -> Vec<Spec> {
     out
 }
 
-fn check_spec(run: &Run, spec: &Spec, class: &str, layouts: &[bool], sample: bool) {
+fn check_spec(run: &Run, spec: &Spec, class: &str, layouts: &[bool], sample: bool, optvec: usize) {
     let n = build(spec);
     let ro = RenderOpts::new();
     for &flow in layouts {
@@ -1311,7 +1513,7 @@ fn check_spec(run: &Run, spec: &Spec, class: &str, layouts: &[bool], sample: boo
         if sample {
             run.sample(|| json!({"class": class, "doc": clip(&doc)}));
         }
-        check_doc(run, &doc, flow, class);
+        check_doc(run, &doc, flow, class, optvec);
     }
     acc::flush(run);
 }
@@ -1334,8 +1536,23 @@ fn random_spec(rng: &mut Rng, depth: usize) -> Spec {
             })
             .collect()
     };
-    let kinds: Vec<KKind> = (0..n_ids).map(|_| *rng.pick(&[KKind::Scalar, KKind::Scalar, KKind::Seq, KKind::Map])).collect();
-    let variants: Vec<Variant> = (0..n).map(|_| *rng.pick(&[Variant::Same, Variant::Same, Variant::Same, Variant::Restyle, Variant::Restyle, Variant::Alias, Variant::Alias, Variant::TagElem])).collect();
+    let kinds: Vec<KKind> = {
+        // at most one id gets a kind of which only one key exists
+        let mut special_used = false;
+        (0..n_ids)
+            .map(|_| {
+                let k = *rng.pick(&[KKind::Scalar, KKind::Scalar, KKind::Scalar, KKind::Seq, KKind::Seq, KKind::Map, KKind::Map, KKind::Null, KKind::ESeq, KKind::NullMap]);
+                if matches!(k, KKind::Null | KKind::ESeq | KKind::NullMap) {
+                    if special_used {
+                        return KKind::Scalar;
+                    }
+                    special_used = true;
+                }
+                k
+            })
+            .collect()
+    };
+    let variants: Vec<Variant> = (0..n).map(|_| *rng.pick(&[Variant::Same, Variant::Same, Variant::Same, Variant::Restyle, Variant::Restyle, Variant::Alias, Variant::Alias, Variant::TagElem, Variant::AliasPre])).collect();
     let mut values = Vec::new();
     for _ in 0..n {
         let v = match rng.below(20) {
@@ -1359,7 +1576,7 @@ fn random_spec(rng: &mut Rng, depth: usize) -> Spec {
                 }
                 // inner anchors would clash with the outer ones: no alias-written keys inside
                 for v in inner.variants.iter_mut() {
-                    if *v == Variant::Alias {
+                    if *v == Variant::Alias || *v == Variant::AliasPre {
                         *v = Variant::Restyle;
                     }
                 }
@@ -1399,7 +1616,7 @@ fn main() {
     let run = Run::from_args("C04");
     if let Some(rep) = run.is_replay() {
         let case = &rep["case"];
-        check_doc(&run, case["doc"].as_str().unwrap_or(""), case["flow"].as_bool().unwrap_or(false), "replay");
+        check_doc(&run, case["doc"].as_str().unwrap_or(""), case["flow"].as_bool().unwrap_or(false), "replay", case["optvec"].as_u64().unwrap_or(0) as usize);
         acc::flush(&run);
         run.finish(Finish::new("replay"));
     }
@@ -1407,18 +1624,47 @@ fn main() {
     let both = [false, true];
 
     // ---- 1. exhaustive small shapes
+    let k3 = [KKind::Scalar, KKind::Seq, KKind::Map];
+    let k_special = [KKind::Null, KKind::Empty, KKind::ESeq, KKind::EMap, KKind::NullMap];
+    let v3 = [Variant::Same, Variant::Restyle, Variant::Alias];
     let mut specs: Vec<Spec> = Vec::new();
     let full_n = 3;
     for n in 2..=full_n {
         for ids in rgs(n, 3) {
-            specs.extend(small_specs(&ids, 2, &[0, 1, 2]));
+            specs.extend(small_specs(&ids, 2, &[0, 1, 2], &k3, &v3));
         }
     }
     // length 4: quick varies the value only at the discarded (later) entries and keeps the mapping at the
     // root; thorough varies the value of every entry whose key takes part in a repeat, in all three positions
     for ids in rgs(full_n + 1, 3) {
-        specs.extend(small_specs(&ids, tier.pick(0, 1), tier.pick(&[0][..], &[0, 1, 2][..])));
+        specs.extend(small_specs(&ids, tier.pick(0, 1), tier.pick(&[0][..], &[0, 1, 2][..]), &k3, &v3));
     }
+    let n_main = specs.len();
+    let has_repeat = |ids: &[usize]| (0..ids.len()).any(|i| ids[..i].contains(&ids[i]));
+    // (b) null / empty / empty-container / {~: m} keys as the repeated key (length <= 3; thorough: values varied everywhere)
+    for n in 2..=3 {
+        for ids in rgs(n, 3).into_iter().filter(|i| has_repeat(i)) {
+            specs.extend(small_specs(&ids, tier.pick(0, 2), &[0, 1, 2], &k_special, &v3));
+        }
+    }
+    // (c) later occurrences written as an alias to an equal node anchored *before* the mapping
+    for n in 2..=3 {
+        for ids in rgs(n, 3).into_iter().filter(|i| has_repeat(i)) {
+            specs.extend(small_specs(&ids, tier.pick(0, 2), &[0, 1, 2], &k3, &[Variant::AliasPre]));
+        }
+    }
+    // (d) the mapping at seven typed positions of a derived struct (sequence item, nested struct, map value,
+    //     externally / internally tagged enum payload, flattened struct, untagged enum); scalar keys are the
+    //     declared fields k1..k3, sequence / mapping keys are there to be rejected alike on both sides
+    for n in 2..=tier.pick(3, 4) {
+        for ids in rgs(n, 3) {
+            specs.extend(small_specs(&ids, 0, &[3, 4, 5, 6, 7, 8, 9], &[KKind::Scalar], &v3));
+        }
+    }
+    for ids in rgs(3, 3).into_iter().filter(|i| has_repeat(i)) {
+        specs.extend(small_specs(&ids, 0, &[3, 4, 5, 6, 7, 8, 9], &[KKind::Seq, KKind::Map, KKind::Null], &[Variant::Same, Variant::Alias]));
+    }
+    acc::count("exhaustive_specs_special_alias_typed", (specs.len() - n_main) as u64);
     if let Ok(l) = std::env::var("C04_LIMIT") {
         let l: usize = l.parse().unwrap();
         let step = (specs.len() / l).max(1);
@@ -1430,7 +1676,7 @@ fn main() {
     }
     acc::count("exhaustive_specs", specs.len() as u64);
     par_range(specs.len(), |i| {
-        check_spec(&run, &specs[i], "exhaustive", &both, i % 20011 == 0);
+        check_spec(&run, &specs[i], "exhaustive", &both, i % 20011 == 0, i);
     });
     drop(specs);
 
@@ -1458,6 +1704,10 @@ fn main() {
             (Node::plain("k1"), Node::plain("K1")),
             (Node::plain("1"), Node::plain("01")),
             (Node::plain("~"), Node::plain("null")),
+            // block scalar versus quoted, same text: the same key
+            (Node::dq("k1\n"), Node::styled("k1\n", vcore::ydoc::Style::Literal)),
+            (Node::styled("k1 x\n", vcore::ydoc::Style::Folded), Node::dq("k1 x\n")),
+            (Node::styled("k1\n", vcore::ydoc::Style::Literal), Node::dq("k1")),
             // and two that ARE the same key (control)
             (Node::plain("k1").with_tag("!!str"), Node::dq("k1").with_tag("!!str")),
             (Node::fseq(vec![Node::dq("k1"), Node::plain("s")]), Node::fseq(vec![Node::plain("k1"), Node::sq("s")])),
@@ -1473,7 +1723,7 @@ fn main() {
                     match render_checked(&t, &ro) {
                         Some((doc, _)) => {
                             acc::count("lookalike_docs", 1);
-                            check_doc(&run, &doc, flow, "look-alike");
+                            check_doc(&run, &doc, flow, "look-alike", wrap);
                         }
                         None => run.inconclusive("generator-invalid: look-alike document not parsed as intended"),
                     }
@@ -1567,7 +1817,7 @@ fn main() {
                                 if (i * 9 + layout * 3 + wrap) % 1777 == 0 {
                                     run.sample(|| json!({"class": "container-look-alike", "doc": doc}));
                                 }
-                                check_doc(&run, &doc, layout == 2, "container-look-alike");
+                                check_doc(&run, &doc, layout == 2, "container-look-alike", i + layout + wrap);
                             }
                             None => run.inconclusive("generator-invalid: container look-alike document not parsed as intended"),
                         }
@@ -1579,7 +1829,7 @@ fn main() {
         // keys that differ only in a custom tag
         for doc in ["!foo k1: t0\n!bar k1: t1\nk2: t2\n", "{!foo k1: t0, k2: t1, !bar k1: t2}\n", "- !u a: t0\n  !v a: t1\n- t2\n"] {
             acc::count("custom_tag_docs", 1);
-            check_doc(&run, doc, doc.starts_with('{'), "custom-tag-look-alike");
+            check_doc(&run, doc, doc.starts_with('{'), "custom-tag-look-alike", 0);
         }
     }
     // ---- 3. large / deep values after (and at) the repeated key
@@ -1662,31 +1912,34 @@ fn main() {
             // a flow rendering of a 120-deep nest stays below the scanner's flow-depth limit; block nests deeper than that go block only
             let deep_block = spec.values.iter().any(|v| matches!(v, VShape::Deep(n, false) if *n > 100));
             let layouts: &[bool] = if *flow_only { &[true] } else if deep_block { &[false] } else { &both };
-            check_spec(&run, spec, "large-value", layouts, i % 97 == 0);
+            check_spec(&run, spec, "large-value", layouts, i % 97 == 0, i);
         });
     }
     // ---- 4. seeded random mappings
-    let n_random = if debug_limited { 2000 } else { tier.pick(40_000, 600_000) };
+    let n_random = if debug_limited { 2000 } else { tier.pick(120_000, 900_000) };
     par_range(n_random, |i| {
         let mut rng = Rng::stream(run.seed, i as u64);
         let spec = random_spec(&mut rng, 2);
         let flow = rng.chance(1, 3);
         acc::count("random_docs", 1);
-        check_spec(&run, &spec, "random", &[flow], i % 9973 == 0);
+        check_spec(&run, &spec, "random", &[flow], i % 9973 == 0, rng.below(4));
     });
     let scope = format!(
-        "mappings whose entry keys follow every restricted-growth string of length 2..=3 over <= 3 key ids; every repeated id's key kind in {{scalar, sequence, mapping}}; every later occurrence written {{identically, in another style, as an alias to the first}}; every entry's value in {{token, [], {{}}, small nest, alias to a 50-element anchor, mapping with own duplicates and merges}}; test mapping at {{root, sequence item followed by a tail, mapping value followed by a tail}}; {{block, flow}}. Length 4 in the same way but {}",
-        if tier == Tier::Quick { "with the value varied only at the discarded (later) entries and the mapping at the root" } else { "with the value varied at every entry whose key takes part in a repeat" }
+        "(a) mappings whose entry keys follow every restricted-growth string of length 2..=3 over <= 3 key ids; every repeated id's key kind in {{scalar, sequence, mapping}}; every later occurrence written {{identically, in another style, as an alias to the first}}; every entry's value in {{token, [], {{}}, small nest, alias to a 50-element anchor, mapping with own duplicates and merges}}; test mapping at {{root, sequence item followed by a tail, mapping value followed by a tail}}; length 4 in the same way but {}. (b) the same for length 2..=3 with the repeated key in {{~, \"\", [], {{}}, {{~: m}}}}{}. (c) the same for length 2..=3 with every later occurrence written as an alias to an equal node anchored before the mapping{}. (d) every pattern of length 2..={} with scalar keys (length 3 also sequence / mapping / null keys) at seven typed positions of a derived struct (sequence item, nested struct, map value, externally and internally tagged enum payload, flattened struct, untagged enum), value varied at the discarded entries. Everything x {{block, flow}}, option vector = spec index mod 4",
+        if tier == Tier::Quick { "with the value varied only at the discarded (later) entries and the mapping at the root" } else { "with the value varied at every entry whose key takes part in a repeat" },
+        if tier == Tier::Quick { ", value varied at the discarded entries" } else { "" },
+        if tier == Tier::Quick { ", value varied at the discarded entries" } else { "" },
+        tier.pick(3, 4),
     );
     let fin = Finish::new(
-        "a case (document, policy, target) is non-trivial when the raw parser's tree has a mapping with >= 1 repeated key node and >= 1 entry after it, and the policy's expectation was evaluated for that target; distinct by hash(doc, policy/target)",
+        "a case (document, policy, target) is non-trivial when the raw parser's tree has a mapping with >= 1 repeated key node and >= 1 entry after it, and the policy's expectation was evaluated for that target; distinct by hash(doc, policy/target, option vector)",
     )
     .exhaustive(scope)
     .assume("raw saphyr-parser event stream is the ground truth for what a document means; repeats, expected error position and all reference documents are computed from it")
     .assume("reference documents are alias-free (aliases expanded by anchor id), so the verdict also relies on alias transparency (C02)")
-    .assume("budget and alias limits switched off")
+    .assume(format!("option vectors crossed in (every call of one relation gets the same one): {}", OPTVEC_NAMES.join(" | ")))
     .assume("no verdict (counted as unspecified/*): LastWins into a derived struct, repeated keys inside a merge source or inside a key, tagged container keys")
-    .min_nontrivial(if tier == Tier::Quick { 50_000 } else { 500_000 });
+    .min_nontrivial(if tier == Tier::Quick { 200_000 } else { 2_000_000 });
     acc::flush(&run);
     run.finish(fin);
 }
